@@ -166,7 +166,10 @@ bool Thread::Join(void *ptr) {
       return false;
   }
   int ret = pthread_join(m_thread_id, &ptr);
-  m_running = false;
+  {
+    MutexLocker locker(&m_mutex);
+    m_running = false;
+  }
   return 0 == ret;
 }
 
